@@ -206,7 +206,7 @@ func dischargePanic(c *Ctx, fn *ssa.Function, st *State, ro *Roots) (bool, strin
 		}
 	}
 	// (c) range-proved table
-	if chk, ok := rangeProved[fn.String()]; ok {
+	if chk, ok := rangeProved[anchorKeyOf(fn)]; ok {
 		ok2, why := chk(c, fn)
 		if ok2 {
 			return true, why
@@ -285,7 +285,7 @@ func initBeforeUse(c *Ctx, handler *ssa.Function, G *ssa.Global, ro *Roots) (boo
 // established by the callers; each entry carries a machine-checked side
 // condition and refers to the rule that proves the arithmetic part.
 var rangeProved = map[string]func(c *Ctx, fn *ssa.Function) (bool, string){
-	"(*github.com/coredhcp/coredhcp/plugins/allocators/bitmap.IPv4Allocator).toIP": func(c *Ctx, fn *ssa.Function) (bool, string) {
+	"toIP": func(c *Ctx, fn *ssa.Function) (bool, string) {
 		// every caller passes an offset that is either a successful toOffset
 		// result (≤ end-start by its own guard, C05.LINMAP) or a NextClear
 		// result (< bitset length = end-start+1, C05.LINMAP + bitset contract)
@@ -304,7 +304,7 @@ var rangeProved = map[string]func(c *Ctx, fn *ssa.Function) (bool, string){
 					if call, ok := e.Tuple.(*ssa.Call); ok {
 						if g := call.Call.StaticCallee(); g != nil {
 							n := g.String()
-							return strings.HasSuffix(n, "IPv4Allocator).toOffset") || n == "(*github.com/bits-and-blooms/bitset.BitSet).NextClear"
+							return isAnchor(g, "toOffset") || n == "(*github.com/bits-and-blooms/bitset.BitSet).NextClear"
 						}
 					}
 				}
@@ -461,7 +461,7 @@ func isSendSite(in ssa.Instruction) string {
 	switch {
 	case strings.HasSuffix(s, "payloadHandler).WriteTo"), strings.HasSuffix(s, "PacketConn).WriteTo"), strings.HasSuffix(s, "UDPConn).WriteTo"), strings.HasSuffix(s, "UDPConn).WriteToUDP"):
 		return "WriteTo"
-	case s == "github.com/coredhcp/coredhcp/server.sendEthernet":
+	case isAnchor(fn, "sendEthernet"):
 		return "sendEthernet"
 	case s == "syscall.Sendto":
 		return "Sendto"
